@@ -133,17 +133,31 @@ char *igris_u8toa(uint8_t num, char *buf, uint8_t base)
     return igris_u64toa((uint64_t)num, buf, base);
 }
 
+// Value of a digit character in bases up to 36 (letters of either case),
+// -1 for a character that is not a digit in any base.
+static inline int digit_value(char c)
+{
+    if (c >= '0' && c <= '9')
+        return c - '0';
+    if (c >= 'a' && c <= 'z')
+        return c - 'a' + 10;
+    if (c >= 'A' && c <= 'Z')
+        return c - 'A' + 10;
+    return -1;
+}
+
 uint32_t igris_atou32(const char *buf, uint8_t base, char **end)
 {
     uint32_t res = 0;
+    int digit;
 
-    for (char c = *buf; ((c = *buf)) && igris_isxdigit(c); buf++)
+    for (; (digit = digit_value(*buf)) >= 0 && digit < base; buf++)
     {
-        res = res * base + hex2half(c);
+        res = res * base + (uint32_t)digit;
     }
 
     if (end)
-        *end = (char *)buf - 1;
+        *end = (char *)buf;
 
     return res;
 }
@@ -151,14 +165,15 @@ uint32_t igris_atou32(const char *buf, uint8_t base, char **end)
 uint64_t igris_atou64(const char *buf, uint8_t base, char **end)
 {
     uint64_t res = 0;
+    int digit;
 
-    for (char c = *buf; ((c = *buf)) && igris_isxdigit(c); buf++)
+    for (; (digit = digit_value(*buf)) >= 0 && digit < base; buf++)
     {
-        res = res * base + hex2half(c);
+        res = res * base + (uint64_t)digit;
     }
 
     if (end)
-        *end = (char *)buf - 1;
+        *end = (char *)buf;
 
     return res;
 }
